@@ -13,7 +13,11 @@ Tier == IF "TIER" \in DOMAIN IOEnv THEN IOEnv.TIER ELSE "quick"
 Quick == Tier = "quick"
 
 \* catastrophic backtracking reached through every regex-consuming API x every way to construct the regex
-RxApis == {"test", "exec", "match", "search", "replace", "replaceAll", "split"}
+\* ... and through every way of REACHING the matcher: method call, detached method value, call / apply of the method, the
+\* method handed to another built-in as a callback (a regex bound to the running clock only when it is the receiver or a
+\* direct argument of a method call is unpolled on the other routes)
+RxApis == {"test", "exec", "match", "search", "replace", "replaceAll", "split",
+           "testdetached", "execdetached", "testcall", "testapply", "replaceapply", "sometest", "matchcall", "splitapply", "mapexec"}
 RxCtors == {"literal", "RegExp_str", "new_RegExp_str", "new_RegExp_regex", "RegExp_regex", "string_pattern", "lookahead_copy"}
 RxLoops == {"rx_" \o a \o "_" \o c : a \in RxApis, c \in RxCtors}
 \* regex_short_runs / regex_many_attempts: ONE regex call whose work is spread over very many short matcher runs
@@ -33,7 +37,15 @@ BaseLoops == {"while", "for", "dowhile", "labelled", "regex_backtrack", "regex_l
 CarryLoops == {"carry_regex_literal", "carry_regex_ctor", "carry_regex_in_closure", "carry_function", "carry_string_method_regex",
                \* the same pattern text used again, on the same context and on a FRESH context of the same process
                "carry_string_pattern", "fresh_string_pattern", "fresh_regex_literal", "fresh_regex_ctor"}
-Loops == BaseLoops \cup RxLoops \cup CarryLoops
+\* one built-in call on a tiny operand with an argument at the edge of its domain (empty search string, empty match, zero /
+\* NaN / huge counts and positions): it returns at once - a host-level loop that stops advancing hangs beyond every limit
+TinyCalls == {"replaceAll_empty", "replaceAll_empty_fn", "replace_empty", "split_empty", "split_empty_rx", "split_lookahead", "match_empty_g",
+              "replace_empty_rx_g", "replaceAll_empty_rx", "search_empty", "indexOf_empty_far", "lastIndexOf_empty", "repeat_zero", "repeat_empty_big",
+              "padlike_concat", "join_empty", "slice_nan", "substring_swap", "exec_empty_g_loop", "test_sticky_empty", "matchall_like",
+              "array_splice_zero", "array_fill_like", "array_indexOf_nan", "sort_equal", "stringify_empty", "parse_ws", "toFixed_zero", "parseInt_empty",
+              "trim_ws_only", "includes_empty", "startsWith_empty_far", "charAt_big", "fromCharCode_none", "concat_none", "keys_empty", "reduce_single"}
+TinyLoops == {"tiny_" \o c : c \in TinyCalls}
+Loops == BaseLoops \cup RxLoops \cup CarryLoops \cup TinyLoops
 Places == {"top", "function", "arrow", "ctor", "cb_forEach", "cb_map", "cb_filter", "cb_reduce", "cb_reduceRight",
            "cb_some", "cb_every", "cb_find", "cb_findIndex", "cb_sort", "getter", "setter", "valueOf", "call", "apply", "bind",
            "eval", "Function", "eval_in_eval", "cb_in_cb"}
@@ -41,6 +53,7 @@ Wraps == {"bare", "try_catch", "try_finally", "try_catch_finally", "catch_loops_
 Ts == IF Quick THEN {2500} ELSE {2500, 7300}
 Mems == IF Quick THEN {0} ELSE {0, 10000000}
 QuickPick(c) == \/ c.wrap = "bare" /\ c.loop \in BaseLoops
+                \/ c.loop \in TinyLoops
                 \/ c.loop \in CarryLoops
                 \/ c.loop \in RxLoops /\ c.place \in {"top", "cb_map", "getter"} /\ c.wrap \in {"bare", "try_catch"} /\ ~c.finite
                 \/ c.place \in {"top", "cb_forEach", "getter", "eval"} /\ c.loop \in BaseLoops
@@ -54,6 +67,7 @@ Cases == {c \in [loop : Loops, place : Places, wrap : Wraps, t : Ts, m : Mems, f
             /\ (Quick => QuickPick(c))
             /\ (c.finite => c.wrap \in {"bare", "try_catch"} /\ c.m = 0)
             /\ (c.loop \in CarryLoops => c.finite /\ c.place = "top" /\ c.wrap = "bare" /\ c.m = 0)
+            /\ (c.loop \in TinyLoops => c.finite /\ c.place \in {"top", "function", "cb_map"} /\ c.wrap = "bare" /\ c.m = 0)
             /\ (c.loop \in RxLoops => ~c.finite /\ c.place \in {"top", "function", "cb_map", "cb_sort", "getter", "valueOf", "eval", "call"})
             /\ (c.loop \in RecLoops => c.m = 0)}     \* with M set, runaway recursion ends in MemoryLimitError first (C02)
 
